@@ -263,36 +263,68 @@ def e4(ctx: Ctx):
 # E7 DIM-ARITHMETIC
 
 
-@rule("E7", "DIM-ARITHMETIC: a source bound n is declared as n+1 elements, filled 0..n; undeclared arrays get bound 10; prologue has base 0", ["C03", "C10"], floor=5)
+@rule("E7", "DIM-ARITHMETIC: a source bound n is declared as n+1 elements, filled 0..n; undeclared arrays get bound 10; prologue has base 0", ["C03", "C10", "C09"], floor=5, default_props=["C03", "C10"])
 def e7(ctx: Ctx):
     py = pyfacts(ctx)
     ci = py.cls("BasicDimStatement")
     init = ci.methods.get("__init__")
     ctx.need(init is not None, "BasicDimStatement.__init__", "not found")
-    # declared size: index.literal + 1 in both the decimal and the hex arm
-    plus = [n for n in ast.walk(init) if isinstance(n, ast.BinOp) and isinstance(n.op, (ast.Add, ast.Sub)) and "literal" in unparse(n.left)]
-    ctx.need(len(plus) >= 2, "BasicDimStatement.__init__", "size arithmetic `index.literal + 1` not found in both arms")
-    for i, n in enumerate(plus):
-        ok = isinstance(n.op, ast.Add) and isinstance(n.right, ast.Constant) and n.right.value == 1
-        ctx.ob(f"declared-size#{i + 1}", ok, "" if ok else f"DIM size is computed as `{unparse(n)}`; Color BASIC's DIM A(n) has n+1 elements (0..n)", file=ELEMENTS_REL, line=n.lineno, witness="" if ok else "10 DIM A(10):A(10)=1")
-    fill = ci.methods.get("init_text_for_var")
-    ctx.need(fill is not None, "BasicDimStatement.init_text_for_var", "not found")
-    minus = [n for n in ast.walk(fill) if isinstance(n, ast.BinOp) and isinstance(n.op, (ast.Add, ast.Sub)) and "literal" in unparse(n.left)]
-    ctx.need(len(minus) >= 2, "init_text_for_var", "upper bound arithmetic `index.literal - 1` not found in both arms")
-    for i, n in enumerate(minus):
-        ok = isinstance(n.op, ast.Sub) and isinstance(n.right, ast.Constant) and n.right.value == 1
-        ctx.ob(f"fill-upper-bound#{i + 1}", ok, "" if ok else f"fill loop runs to `{unparse(n)}` of the declared size: the last element(s) stay uninitialised / the loop runs out of bounds", file=ELEMENTS_REL, line=n.lineno)
-    # fill loop starts at 0
-    fors = [n for n in ast.walk(fill) if isinstance(n, ast.Call) and getattr(n.func, "id", "") == "BasicForStatement"]
-    ctx.need(fors, "init_text_for_var", "BasicForStatement construction not found")
-    start = fors[0].args[1] if len(fors[0].args) > 1 else None
-    ok0 = isinstance(start, ast.Call) and start.args and isinstance(start.args[0], ast.Constant) and start.args[0].value == 0
-    ctx.ob("fill-lower-bound", ok0, "" if ok0 else f"fill loop starts at `{unparse(start) if start is not None else None}`, element 0 is not initialised", file=ELEMENTS_REL, line=fors[0].lineno)
-    # decimal and hex arms agree (sibling agreement)
-    consts = {(type(n.op).__name__, n.right.value if isinstance(n.right, ast.Constant) else None) for n in plus}
-    ctx.ob("declared-size:arms-agree", len(consts) == 1, "" if len(consts) == 1 else f"decimal and hex bounds use different arithmetic {sorted(consts)}", file=ELEMENTS_REL, line=init.lineno)
-    consts = {(type(n.op).__name__, n.right.value if isinstance(n.right, ast.Constant) else None) for n in minus}
-    ctx.ob("fill-upper-bound:arms-agree", len(consts) == 1, "" if len(consts) == 1 else f"decimal and hex bounds use different arithmetic {sorted(consts)}", file=ELEMENTS_REL, line=fill.lineno)
+    fill_r = py.resolve_method("BasicDimStatement", "init_text_for_var")
+    ctx.need(fill_r is not None, "BasicDimStatement.init_text_for_var", "not found")
+    # decided by interpreting the constructor and the fill-text builder on concrete DIM statements:
+    # DIM A(n) / DIM A(&Hn), one and two dimensions, with n = 10, 0 and 255
+    from .absint import Const as _C, Obj as _O, Seq as _S, Unknown as _U, alts_of as _alts, interp as _interp
+    from .rules_abs import _flatten
+
+    I = _interp(ctx)
+
+    def mk(cls, *a_, **k_):
+        return I.construct(cls, list(a_), k_, init.lineno, "BasicDimStatement")
+
+    def lit(kind: str, n: int):
+        return mk("BasicLiteral", _C(n)) if kind == "dec" else mk("HexLiteral", _C(format(n, "X")))
+
+    def to_int(txt: str) -> Optional[int]:
+        txt = txt.strip()
+        try:
+            return int(txt[1:], 16) if txt.startswith("$") else int(float(txt))
+        except ValueError:
+            return None
+
+    for kind in ("dec", "hex"):
+        for bounds in ((10,), (0,), (255,), (3, 4)):
+            key = f"{kind}{list(bounds)}"
+            ref = mk("BasicArrayRef", mk("BasicVar", _C("arr_A")), mk("BasicExpressionList", _S([lit(kind, n_) for n_ in bounds], None)))
+            stmt = mk("BasicDimStatement", _S([ref], None))
+            dvs = I.iter_elems(I.getattr(stmt, "_dim_vars", "BasicDimStatement"))
+            x = dvs[0][0] if dvs and len(dvs[0]) == 1 and dvs[1] is None else None
+            idx = I.iter_elems(I.getattr(I.getattr(x, "indices", "x"), "exp_list", "x")) if isinstance(x, _O) else None
+            vals = [I.getattr(e_, "literal", "x") for e_ in idx[0]] if idx and idx[1] is None else None
+            if vals is None or not all(isinstance(v_, _C) and isinstance(v_.value, int) for v_ in vals):
+                ctx.undecided(f"declared-size:{key}", f"the declared sizes of `DIM A{bounds}` could not be evaluated ({vals})", file=ELEMENTS_REL, line=init.lineno)
+                continue
+            got = tuple(v_.value for v_ in vals)
+            want = tuple(n_ + 1 for n_ in bounds)
+            ok = got == want
+            ctx.ob(f"declared-size:{key}", ok, "" if ok else f"`DIM A({', '.join(('&H%X' % n_) if kind == 'hex' else str(n_) for n_ in bounds)})` is declared with {got} elements; Color BASIC's DIM A(n) has n+1 elements (0..n) per dimension: {want}", file=ELEMENTS_REL, line=init.lineno, witness="" if ok else "10 DIM A(10):A(10)=1")
+            # the declared name: prefix stripped and re-added exactly once
+            nm = I.call_function(py.resolve_method("BasicArrayRef", "basic09_text")[1], [x, _C(0)], self_obj=x, owner="BasicArrayRef") if py.resolve_method("BasicArrayRef", "basic09_text") else None
+            # the fill loops: FOR tmp_k = 0 TO n_k, outermost first
+            t = I.call_function(fill_r[1], [stmt, x], self_obj=stmt, owner=fill_r[0].name)
+            texts = ["".join(p_ if isinstance(p_, str) else "{}" for p_ in _flatten(a_)) for a_ in _alts(t)]
+            loops = [re.findall(r"FOR\s+(\w+)\s*=\s*(\S+)\s+TO\s+(\S+)", tx) for tx in texts]
+            if len(texts) != 1 or len(loops[0]) != len(bounds) or any("{" in lo or "{" in hi for _, lo, hi in loops[0]):
+                ctx.undecided(f"fill-bounds:{key}", f"the fill text of `DIM A{bounds}` could not be evaluated ({texts})", file=ELEMENTS_REL, line=fill_r[1].lineno)
+                continue
+            lows = tuple(to_int(lo) for _, lo, _ in loops[0])
+            highs = tuple(to_int(hi) for _, _, hi in loops[0])
+            okl = lows == tuple(0 for _ in bounds)
+            ctx.ob(f"fill-lower-bound:{key}", okl, "" if okl else f"the fill loops of `DIM A{bounds}` start at {lows}: element 0 is not initialised", file=ELEMENTS_REL, line=fill_r[1].lineno)
+            okh = highs == tuple(bounds)
+            ctx.ob(f"fill-upper-bound:{key}", okh, "" if okh else f"the fill loops of `DIM A{bounds}` run to {highs} (declared {got}): the last element(s) stay uninitialised / the loop runs out of bounds", file=ELEMENTS_REL, line=fill_r[1].lineno)
+            vars_ = [v_ for v_, _, _ in loops[0]]
+            okv = len(set(vars_)) == len(vars_)
+            ctx.ob(f"fill-loop-vars:{key}", okv, "" if okv else f"the fill loops of `DIM A{bounds}` reuse a loop variable ({vars_})", file=ELEMENTS_REL, line=fill_r[1].lineno)
     # implicit arrays: source bound 10
     dv = py.cls("DeclareImplicitArraysVisitor").properties.get("dim_statements")
     ctx.need(dv is not None, "DeclareImplicitArraysVisitor.dim_statements", "not found")
@@ -334,7 +366,7 @@ def e7(ctx: Ctx):
     ctx.idiom("scalar-init-values", bool(init_consts), okz, "" if okz else f"pre-initialisation assigns {sorted(set(init_consts))}; Color BASIC starts strings as \"\" and numbers as 0 (a REAL 0.0 in BASIC09)", file="coco/b09/visitors.py", line=vi.lineno, props=["C03"])
     lens = sorted({c.comparators[0].value for fn_ in scope for c in ast.walk(fn_) if isinstance(c, ast.Compare) and isinstance(c.left, ast.Call) and getattr(c.left.func, "id", "") == "len" and len(c.ops) == 1 and isinstance(c.ops[0], ast.LtE) and isinstance(c.comparators[0], ast.Constant)} | {a.value + 0 for fn_ in scope for a in ast.walk(fn_) if isinstance(a, ast.Constant) and isinstance(a.value, int) and not isinstance(a.value, bool) and a.value in (2, 3) and any(isinstance(p_, ast.Assign) and p_.value is not None and any(x is a for x in ast.walk(p_.value)) for p_ in ast.walk(fn_))})
     okf = lens == [2, 3]
-    ctx.idiom("scalar-init-filter", bool(lens), okf, "" if okf else f"names are pre-initialised when their length is at most {lens}; user scalars are one or two characters (three with `$`), anything longer is a name the tool generated (arr_*, tmp_*, display ...)", file="coco/b09/visitors.py", line=vi.lineno, props=["C03"])
+    ctx.idiom("scalar-init-filter", bool(lens), okf, "" if okf else f"names are pre-initialised when their length is at most {lens}; user scalars are one or two characters (three with `$`), anything longer is a name the tool generated (arr_*, tmp_*, display, pid ...) and must not be claimed as a user variable", file="coco/b09/visitors.py", line=vi.lineno, props=["C03", "C09", "C10"])
 
 
 # ---------------------------------------------------------------------------
